@@ -5,4 +5,6 @@ Definition set_v_targets_set (s : st) (x : _) : st := mk_st (v_n_args_override s
 Definition init : st := mk_st None [].
 Definition size_and_targets (is_jump : bool) (jump_target n_args a offset next_offset : Z) (s : st) : res st :=
   (if is_jump then (bind (OK (set_v_targets_set s (jump_target :: v_targets_set s))) (fun s => (OK (set_v_n_args_override s (if (Z.gtb n_args (1)) then (Some n_args) else None))))) else (OK (set_v_n_args_override s None))).
+(* the offset passed to to_arg, against which relative jumps are resolved *)
+Definition jump_base (n_args offset next_offset : Z) : Z := next_offset.
 End DecodeStep.
